@@ -15,7 +15,8 @@ from vf import repro_model as rm
 
 MOD = "debian._deb822_repro.parsing"
 
-NEWVALS = ["x", "x y", "m1\n m2", "\n only\n cont", "t\n# c\n u"]
+NEWVALS = ["x", "x y", "m1\n m2", "\n only\n cont", "t\n# c\n u", "a  b\tc   d", "  lead and trail\t ", "x\n  two  spaces \n\ttab\t.",
+           ": colon", "é  ü", "v #c", "\n .\n  x"]
 
 
 def norm(v):
